@@ -10,6 +10,6 @@ try:
     p = os.path.join(tmp, m['file']); s = open(p).read(); assert s.count(m['old']) == 1, s.count(m['old'])
     open(p, 'w').write(s.replace(m['old'], m['new']))
     r = subprocess.run(['/verif/tools/suite.py', tmp], stdout=subprocess.PIPE, text=True)
-    print(m['id'], 'SURVIVES' if r.returncode == 0 else 'KILLED', r.stdout.strip().splitlines()[0])
+    print(m['id'], 'SURVIVES' if r.returncode == 0 else 'KILLED', ' | '.join(r.stdout.strip().splitlines()[:3]))
 finally:
     shutil.rmtree(tmp, ignore_errors=True)
